@@ -15,6 +15,77 @@ def c01(tier, seed, replay):
     return pipeline.run("C01", tier, seed, replay, gen=C01_GEN)
 
 
+def c12_design(work, verdict, quick):
+    from concurrent.futures import ThreadPoolExecutor
+    from verif import tlc_expect_ok, tlc_expect_violation
+    with ThreadPoolExecutor(max_workers=3) as ex:
+        main = ex.submit(tlc_expect_ok, work, "ErrorMapMC", "ErrorMapMC.cfg", workers=4, timeout=900)
+        muts = {m: ex.submit(tlc_expect_violation, work, "ErrorMapMC", "ErrorMapMC_%s.cfg" % m, "InvRank",
+                             workers=2, timeout=600) for m in ("authz_before_authn", "head_only")}
+        r = main.result()
+        refuted = {m: f.result().violated for m, f in muts.items()}
+    verdict.coverage["states"] = r.distinct
+    verdict.coverage["transitions"] = r.generated
+    verdict.coverage["design_run"] = {
+        "module": "ErrorMapMC", "distinct_states": r.distinct, "generated": r.generated,
+        "invariants": ["InvTotal", "InvNeverSuccess", "InvWrap", "InvRank", "InvGrpcHttpAgree"],
+        "negative_controls_refuted": refuted, "wall_s": round(r.wall, 1),
+    }
+
+
+def c12_produce(work, binary, tier, seed):
+    from verif import log, run_driver, tlc_expect_ok
+    trees = work.path("trees.ndjson")
+    nodes = 3 if tier == "quick" else 4
+    tlc_expect_ok(work, "ErrorMapGen", "ErrorMapGen.cfg",
+                  env={"VERIF_GEN_OUT": trees, "VERIF_GEN_NODES": nodes}, workers=1, timeout=1200)
+    n = sum(1 for _ in open(trees))
+    trace = work.path("trace.ndjson")
+    per_tree = 3 if tier == "quick" else 5
+    log(run_driver(binary, ["c12", "-trees", trees, "-trace", trace, "-seed", seed, "-per-tree", per_tree]).strip())
+    return trace, n
+
+
+def c12(tier, seed, replay):
+    return pipeline.run(
+        "C12", tier, seed, replay, design=c12_design, produce=c12_produce,
+        rule="error values = all error trees up to 3 (quick) / 4 (thorough) nodes over the 9 sentinel kinds, "
+             "RedirectError and foreign errors with the wrappers errorchain (1-3 elements), fmt %w and "
+             "errors.Join, enumerated by TLC; each is raised by a scripted authenticator / authorizer / "
+             "finalizer, or recorded / returned by an error handler, with rotating error pipelines (none, "
+             "default, redirect, www_authenticate, conditional), status overrides, verbose on/off and Accept "
+             "headers, through the three entry points; non-trivial = the specification's run is negative",
+    )
+
+
+C04_GEN = {
+    "quick": {"VERIF_GEN_A": 3, "VERIF_GEN_H": 0, "VERIF_GEN_F": 0, "VERIF_GEN_E": 1,
+              "VERIF_GEN_RANDOM": 1500, "VERIF_GEN_RANDLEN": 5},
+    "quick_drv": ["-max", "5000"],
+    "thorough": {"VERIF_GEN_A": 4, "VERIF_GEN_H": 0, "VERIF_GEN_F": 0, "VERIF_GEN_E": 1,
+                 "VERIF_GEN_RANDOM": 30000, "VERIF_GEN_RANDLEN": 7},
+    "thorough_drv": ["-max", "60000"],
+}
+
+
+def c04(tier, seed, replay):
+    return pipeline.run("C04", tier, seed, replay, gen=C04_GEN, drv_extra=["-tag"])
+
+
+def _lazy(module, fn="run"):
+    def call(tier, seed, replay):
+        import importlib
+        return getattr(importlib.import_module(module), fn)(tier, seed, replay)
+    return call
+
+
 CHECKS = {
     "C01": c01,
+    "C04": c04,
+    "C12": c12,
 }
+
+# checks living in their own module lib/<module>.py with run(tier, seed, replay)
+for _pid, _mod in {
+}.items():
+    CHECKS[_pid] = _lazy(_mod)
